@@ -1,6 +1,7 @@
 package main
 
 import (
+	goruntime "runtime"
 	"context"
 	"fmt"
 	"net/http"
@@ -397,6 +398,70 @@ func runC20(c *Ctx) {
 			c.Violation("", "types/"+pkg.name+": "+p, replay)
 		}
 		c.DistinctCase(what)
+	}
+	// shutdown with events still in flight: two typed subscriptions created
+	// together end with the same sequence (each adapter drains what its parent
+	// subscription had buffered before it closes its own Events() channel)
+	ntail := 2
+	if !c.Quick() {
+		ntail = 20
+	}
+	for pi, pkg := range typedPkgs {
+		for k := 0; k < ntail; k++ {
+			var problems []string
+			what := "types/" + pkg.name + ": a burst of 90 changes, then Close() at once; two typed subscriptions created together"
+			c.Now(what)
+			dl := sched.Bubble(c.T, func() {
+				srv := fakeapi.New()
+				srv.Kind = pkg.kind
+				pert := sched.NewPerturb(c.Seed+int64(pi*100+k), 0)
+				ctx, cancel := context.WithCancel(context.Background())
+				defer cancel()
+				tc, err := pkg.build(ctx, pert.Log(), fakeClient(srv))
+				if err != nil {
+					problems = append(problems, "BuildController failed: "+err.Error())
+					return
+				}
+				pert.Barrier()
+				s1, err1 := tc.subscribe()
+				s2, err2 := tc.subscribe()
+				if err1 != nil || err2 != nil {
+					problems = append(problems, "typed Subscribe failed")
+					tc.closeFn()
+					sched.Settle()
+					return
+				}
+				pert.Barrier()
+				for j := 0; j < 90; j++ {
+					srv.Put(proto(pkg.kind, 1+j%2, 1+j%3, j%6))
+				}
+				// close while the stream is flowing: wait (in real time, spinning)
+				// until some events have come through, then close at once
+				for spin := 0; spin < 2000000 && len(s1.received()) < 5+10*(k%4); spin++ {
+					goruntime.Gosched()
+				}
+				tc.closeFn()
+				sched.Settle()
+				<-s1.end
+				<-s2.end
+				a, b := s1.received(), s2.received()
+				if fmt.Sprint(a) != fmt.Sprint(b) {
+					problems = append(problems, fmt.Sprintf("two typed subscriptions created together received %d and %d events before their Events() channels closed at shutdown", len(a), len(b)))
+				}
+				c.Stat("typed_tail_events", len(a))
+			})
+			runs++
+			c.Rep.Evaluations++
+			replay := map[string]interface{}{"scenario": what, "attempt": k}
+			if dl != "" {
+				replay["deadlock"] = dl
+				c.Violation("", "hang (bubble deadlock): "+what, replay)
+			}
+			for _, p := range problems {
+				c.Violation("", "types/"+pkg.name+": "+p, replay)
+			}
+			c.DistinctCase(fmt.Sprint("typed-tail", pkg.name, k))
+		}
 	}
 	restCheck(c)
 	c.Rep.Rule = "all 12 typed packages: the same seeded scenario (objects of the package's type created, changed, deleted; objects of ANOTHER type injected on the watch) run on a typed controller (BuildController) and on an untyped kcache controller side by side against one fake API server in virtual time: typed cache / filtered-subscription cache / subscription events / filtered-subscription events / monitor callbacks = the untyped ones restricted to the type (foreign objects skipped, never nil, same order), Get, readiness, Close; the typed cache vs the extracted typed_list; per package an initially empty collection (typed monitor callbacks = untyped ones, OnInitialize with nothing included) and a burst of 250 events nobody reads (typed subscription delivers what the untyped one delivers; Events() closed after Close). Source level: harness/cmd/gentokens tokenizes template and generated files and the Coq kernel checks instantiate(template) = generated for the 12 packages and executed-join-template = generated join for the 8 joins (20 per-run obligations). REST: every typed NewClient against a loopback HTTP API server, with and without namespace: path and query of list and watch. Non-trivial = every (package, scenario)."
